@@ -145,6 +145,9 @@ type Component struct {
 	Affects func(cs Case, impl, model string) []string
 }
 
+// budgetS > 0: wall-clock budget of a run in seconds (flag -budget); the case list is cut when half of it is used
+var budgetS float64
+
 var components = map[string]*Component{}
 
 func register(c *Component) { components[c.Name] = c }
@@ -299,10 +302,53 @@ func RunComponent(c *Component, tier string, seed uint64, driver string, corpus 
 		res.DisagreeProp = map[string]int{}
 	}
 	rng := NewRNG(seed)
-	var cases []Case
-	cases = append(cases, corpus...)
-	c.Gen(tier, rng, func(cs Case) { cases = append(cases, cs) })
-	res.Evaluations = len(cases)
+	var all []Case
+	all = append(all, corpus...)
+	c.Gen(tier, rng, func(cs Case) { all = append(all, cs) })
+	distinct := map[uint64]struct{}{}
+	if budgetS > 0 {
+		// a budgeted run may not reach the end of the list: shuffle (deterministically) so that every prefix is a
+		// sample of the whole scope; corpus cases stay in front
+		sh := NewRNG(seed ^ 0x5eed5eed)
+		gen := all[len(corpus):]
+		for i := len(gen) - 1; i > 0; i-- {
+			j := sh.Intn(i + 1)
+			gen[i], gen[j] = gen[j], gen[i]
+		}
+	}
+	// without a budget the whole list is one chunk; with a budget (focus runs) the list is worked off in chunks of
+	// 50,000 cases (implementation, model, comparison per chunk) until the budget is used
+	chunk := len(all)
+	if budgetS > 0 && chunk > 50000 {
+		chunk = 50000
+	}
+	done := 0
+	for done < len(all) || (done == 0 && len(all) == 0) {
+		end := done + chunk
+		if end > len(all) {
+			end = len(all)
+		}
+		evalChunk(c, all[done:end], driver, res, distinct)
+		done = end
+		if len(all) == 0 {
+			break
+		}
+		if budgetS > 0 && time.Since(t0).Seconds() > budgetS && done < len(all) {
+			res.Notes = append(res.Notes, fmt.Sprintf("budget: evaluated the first %d of %d generated cases (budget %.0f s)", done, len(all), budgetS))
+			break
+		}
+	}
+	res.Evaluations = done
+	res.Distinct = len(distinct)
+	sort.Slice(res.Disagreements, func(a, b int) bool {
+		return len(res.Disagreements[a].Case.Line("")) < len(res.Disagreements[b].Case.Line(""))
+	})
+	res.WallS = time.Since(t0).Seconds()
+	return res
+}
+
+// evalChunk runs one chunk of cases on the implementation and the model and accumulates into res.
+func evalChunk(c *Component, cases []Case, driver string, res *Result, distinct map[uint64]struct{}) {
 
 	impl := make([]ImplResult, len(cases))
 	panicked := make([]bool, len(cases))
@@ -371,8 +417,7 @@ func RunComponent(c *Component, tier string, seed uint64, driver string, corpus 
 		res.NDisagree++
 		res.Disagreements = append(res.Disagreements, Disagreement{Component: c.Name, Case: Case{Op: "driver-error"}, Impl: "", Model: err.Error()})
 	}
-	res.Compared = nMain
-	distinct := map[uint64]struct{}{}
+	res.Compared += nMain
 	for i, cs := range cases {
 		res.OpCounts[cs.Op]++
 		if panicked[i] {
@@ -411,17 +456,11 @@ func RunComponent(c *Component, tier string, seed uint64, driver string, corpus 
 			}
 		}
 	}
-	res.Distinct = len(distinct)
 	// samples: a few spread over the case list
 	step := len(cases)/6 + 1
 	for i := 0; i < len(cases) && len(res.Samples) < 8; i += step {
 		res.Samples = append(res.Samples, map[string]interface{}{"case": cases[i].Line(c.Name), "impl": impl[i].Out})
 	}
-	sort.Slice(res.Disagreements, func(a, b int) bool {
-		return len(res.Disagreements[a].Case.Line("")) < len(res.Disagreements[b].Case.Line(""))
-	})
-	res.WallS = time.Since(t0).Seconds()
-	return res
 }
 
 func writeJSON(path string, v interface{}) {
